@@ -617,7 +617,13 @@ func (p *player) waitFor(what string, cond func() bool) bool {
 				if p.l.closedAt.IsZero() {
 					p.l.closedAt = time.Now()
 				}
-				if rest := time.Until(p.l.closedAt.Add(2 * time.Second)); time.Until(t0.Add(d)) > rest {
+				// a server-initiated close waits up to 1 s for the echo of its close frame and then for the
+				// read loop to finish the operation it is in: on a busy machine that exceeds 2 s
+				grace := 2 * time.Second
+				if p.patient {
+					grace = 6 * time.Second
+				}
+				if rest := time.Until(p.l.closedAt.Add(grace)); time.Until(t0.Add(d)) > rest {
 					d = time.Since(t0) + rest
 				}
 			}
